@@ -8,7 +8,10 @@ CFG = dict(
          "REAL AnalyzeData through dastard.VerifAnalyze (fresh DataStreamProcessor, real SetProjectorsBasis) - 45% with projectors/basis of "
          "1..8 rows x nsamp (random moderate/wide-exponent float64 entries, selection rows, sparse with +-0, small integers, a realistic "
          "constant/ramp/exponential model with projectors = scaled transpose), 12% of those with incompatible shapes - and ~10% of the cases "
-         "are records published by the real pipeline (PrepareRun, ConfigureProjectorsBases, ProcessSegments -> TriggerData -> AnalyzeData). "
+         "are records published by the real pipeline (PrepareRun, ConfigureProjectorsBases, ProcessSegments -> TriggerData -> AnalyzeData), "
+         "half of them in edge-multi VARIABLE-LENGTH mode (real ConfigureTriggers RPC, closely spaced pulses on a sloping baseline: real records "
+         "with a pre-trigger section and length shorter than configured); 35% of the direct cases analyse a record whose own presamples / length "
+         "differ from the processor's configured NPresamples / NSamples (shorter, longer, different split). "
          "Every float64 result crosses as its IEEE bit pattern; the Lean driver turns it into an exact rational, evaluates the DEFINITIONS "
          "exactly (Rat) on the integer record and the exact value of every matrix entry and demands agreement within the stated rounding "
          "tolerances (RMS and residual std-dev on squares); NaN/Inf where the definition is finite is a violation; the float32 values of the "
@@ -70,4 +73,6 @@ THEOREMS = [
     ("DastardV.Props.C13", "DastardV.C13.popVar_alt"),
     ("DastardV.Props.C13", "DastardV.C13.resid_std_def"),
     ("DastardV.Props.C13", "DastardV.C13.C13_oracle_accepts_exact"),
+    ("DastardV.Props.C13", "DastardV.C13.analyze_record_only"),
+    ("DastardV.Props.C13", "DastardV.C13.analyze_record_only_len"),
 ]
